@@ -180,11 +180,21 @@ Proof.
   apply existsb_exists. exists k'. split; [exact Hin|]. rewrite <- (kmem_congr _ _ _ He). exact H2.
 Qed.
 
+Lemma kmem_filter_ne : forall k k0 l,
+  kmem k0 (filter (fun x => negb (key_eqb k x)) l) = negb (key_eqb k k0) && kmem k0 l.
+Proof.
+  intros k k0 l; induction l as [|x t IH]; dk; [rewrite andb_false_r; reflexivity|].
+  destruct (key_eqb k x) eqn:E; dk; rewrite IH.
+  - destruct (key_eqb k0 x) eqn:F; [|reflexivity]. dk.
+    rewrite key_eqb_sym in F. rewrite (key_eqb_trans _ _ _ E F). reflexivity.
+  - destruct (key_eqb k0 x) eqn:F; dk; [|reflexivity].
+    destruct (key_eqb k k0) eqn:G; [|reflexivity]. rewrite (key_eqb_trans _ _ _ G F) in E. discriminate.
+Qed.
+
 Lemma kmem_kdedup : forall k l, kmem k (kdedup l) = kmem k l.
 Proof.
   intros k l; induction l as [|x t IH]; dk; [reflexivity|].
-  destruct (kmem x t) eqn:E; dk; rewrite IH; [|reflexivity].
-  destruct (key_eqb k x) eqn:F; [|reflexivity]. dk. rewrite (kmem_congr _ _ _ F). exact E.
+  rewrite kmem_filter_ne, IH. rewrite (key_eqb_sym x k). destruct (key_eqb k x); reflexivity.
 Qed.
 
 (* ---------- the invariant ---------- *)
